@@ -63,6 +63,8 @@ public:
 
     ///merge coroutines from one suspend point to other (current)
     suspend_point &operator<<(suspend_point &&other)  {
+        //merging with itself must not drop the coroutines
+        if (&other == this) return *this;
         auto count = other._count_flag >> 1;
         if (other._count_flag & 1) [[unlikely]] {
             for (std::size_t i = 0; i < count; i++) {
